@@ -2372,6 +2372,111 @@ _resource_tracker""")),
       (PE, """            raised_error.__cause__ = _RemoteTraceback("".join(tb))
             work_item = self.pending_work_items.pop(obj.work_id, None)""", """            raised_error.__cause__ = e
             work_item = self.pending_work_items.pop(obj.work_id, None)""")),
+    # D19 (fixed in /repo): the memory-leak exit skips the shutdown of nested executors
+    M("worker-leak-exit-skips-nested-shutdown-D19", ["C01", "C07"], ["R-EXIT-NESTED"],
+      (PE, """                    _python_exit()
+                    mp.util.debug("Exit due to memory leak")""", """                    mp.util.debug("Exit due to memory leak")""")),
+    M("worker-timeout-exit-skips-nested-shutdown", ["C01", "C07"], ["R-EXIT-NESTED"],
+      (PE, """            is_clean = worker_exit_lock.acquire(True, timeout=30)
+
+            # Early notify any loky executor running in this worker process
+            # (nested parallelism) that this process is about to shutdown to
+            # avoid a deadlock waiting undifinitely for the worker to finish.
+            _python_exit()
+""", """            is_clean = worker_exit_lock.acquire(True, timeout=30)
+""")),
+    # D20 (fixed in /repo): a warning raised as an error on the manager thread
+    M("mgr-warning-unguarded-D20", ["C01", "C02", "C05"], ["R-MGR-TOTAL"],
+      (PE, """                    try:
+                        warnings.warn(
+                            "A worker stopped while some jobs were given to "
+                            "the executor. This can be caused by a too short "
+                            "worker timeout or by a memory leak.",
+                            UserWarning,
+                        )
+                    except Exception as e:
+                        # Warnings can be turned into errors (-W error): this
+                        # must not kill the executor manager thread before it
+                        # re-spawns the workers needed by the pending jobs.
+                        mp.util.info(f"{type(e).__name__}: {e}")
+""", """                    warnings.warn(
+                        "A worker stopped while some jobs were given to the "
+                        "executor. This can be caused by a too short worker "
+                        "timeout or by a memory leak.",
+                        UserWarning,
+                    )
+""")),
+    # D22 (fixed in /repo): a plain shutdown resets a pending kill request
+    M("killflag-overwritten-by-plain-shutdown-D22", ["C06"], ["R-KILL-PATH"],
+      (PE, """            if kill_workers:
+                # Only ever upgrade: a later shutdown() with the default
+                # kill_workers=False must not cancel a pending forced shutdown.
+                self.kill_workers = True""", """            if kill_workers is not None:
+                self.kill_workers = kill_workers""")),
+    M("killflag-only-first-shutdown-decides", ["C06"], ["R-KILL-PATH"],
+      (PE, """            self.shutdown = True
+            if kill_workers:
+                # Only ever upgrade: a later shutdown() with the default
+                # kill_workers=False must not cancel a pending forced shutdown.
+                self.kill_workers = True""", """            if kill_workers and not self.shutdown:
+                self.kill_workers = True
+            self.shutdown = True""")),
+    # D23 (fixed in /repo): check on a snapshot, use of a second read
+    M("shutdown-rereads-nulled-wakeup-D23", ["C01", "C05", "C07"], ["R-NULLED"],
+      (PE, """            with self._shutdown_lock:
+                executor_manager_thread_wakeup.wakeup()""", """            with self._shutdown_lock:
+                self._executor_manager_thread_wakeup.wakeup()""")),
+    # ------------------------------------- round-5 seeds
+    M("send-helper-oserror-reraised", ["C04"], ["R-EXC-BREADTH"],
+      (PE, """    except BaseException as e:
+        exc = _ExceptionWithTraceback(e)
+        result_queue.put(_ResultItem(work_id, exception=exc))""", """    except OSError:
+        raise
+    except BaseException as e:
+        exc = _ExceptionWithTraceback(e)
+        result_queue.put(_ResultItem(work_id, exception=exc))""")),
+    M("tracker-entry-deleted-after-cleanup", ["C11", "C13"], ["R-RT-TABLE"],
+      (RT, """                            del registry[rtype][name]
+                            try:
+                                if verbose:
+                                    util.debug(
+                                        f"[ResourceTracker] unlink {name}"
+                                    )
+                                _CLEANUP_FUNCS[rtype](name)""", """                            try:
+                                if verbose:
+                                    util.debug(
+                                        f"[ResourceTracker] unlink {name}"
+                                    )
+                                _CLEANUP_FUNCS[rtype](name)
+                                del registry[rtype][name]""")),
+    M("cond-drain-acquire-inside-assert", ["C14"], ["R-COND-TOKENS"],
+      (SY, """        while self._woken_count.acquire(False):
+            res = self._sleeping_count.acquire(False)
+            assert res
+
+        if self._sleeping_count.acquire(False):""", """        while self._woken_count.acquire(False):
+            assert self._sleeping_count.acquire(False)
+
+        if self._sleeping_count.acquire(False):""")),
+    M("reducer-registered-for-bound-slot-wrapper", ["C15", "C03"], ["R-REDUCE-TYPES"],
+      (RD, """register(type(int.__add__), _reduce_method_descriptor)""", """register(types.MethodWrapperType, _reduce_method_descriptor)""")),
+    M("initializer-filtered-by-truth-value", ["C18"], ["R-INIT-TRUTH"],
+      ("loky/initializers.py", """        if initializer is not None:
+            filtered_initializers.append(initializer)""", """        if initializer:
+            filtered_initializers.append(initializer)""")),
+    M("bootstrap-guard-only-with-main-module", ["C19"], ["R-DEPTH"],
+      (SP, """    _check_not_importing_main()
+    d = dict(""", """    if init_main_module:
+        _check_not_importing_main()
+    d = dict(""")),
+    M("exitcode-name-table-keyerror", ["C02", "C10"], ["R-MGR-TOTAL"],
+      (UT, """            import signal
+
+            return signal.Signals(-exitcode).name""", """            return _SIGNAL_NAMES[-exitcode]"""),
+      (UT, """def kill_process_tree(process, use_psutil=True):""", """_SIGNAL_NAMES = {int(sig): sig.name for sig in signal.Signals}
+
+
+def kill_process_tree(process, use_psutil=True):""")),
 ]
 
 
